@@ -39,8 +39,14 @@ def gen_events(rng, prog, n):
         mems = [x for x, d in cur["defs"].items() if d["kind"] == "memento"]
         if r < 0.40:
             cur, lg = vprogs.edits(rng, cur, 1)
+            if not lg:
+                continue
             acts = c01.event_actions(prev, cur)
             desc = ["edit"] + lg[-1]
+            # a clone / wrapper made from a function object that has since been re-defined still wraps the OLD
+            # function: it is no longer part of "the resulting program", so it is not compared any more
+            redefined = {n for n in cur["defs"] if cur["defs"][n]["kind"] != "var" and prev["defs"].get(n) != cur["defs"][n]}
+            clones = {c: b for c, b in clones.items() if b not in redefined}
         elif r < 0.50:
             muts = [x for x, d in cur["defs"].items() if d["kind"] == "var" and isinstance(d["value"], (list, dict))]
             if not muts:
@@ -192,7 +198,9 @@ def main(chk, replay=None):
         # add a reference to a symbol that is not defined yet
         fnames = [x for x, d in prog["defs"].items() if d["kind"] != "var"]
         if r.random() < 0.6:
-            prog["defs"][r.choice(fnames)]["refs"].append(["U1", "bare"])
+            user = r.choice([x for x in fnames if prog["defs"][x]["where"] == "mod"] or fnames)
+            prog["defs"][user]["refs"].append(["U1", "bare"])
+            prog["late"] = ["U1"]
         evs = gen_events(r, prog, r.randint(2, maxev))
         root = tempfile.mkdtemp(prefix="c13_", dir=chk.tmpdir())
         try:
